@@ -55,7 +55,7 @@ PATTERN_NAMES = [
 HARMLESS = "W zq"
 
 
-def choose_cases(ck: core.Check, gen: Dict[str, Any], rnd: random.Random, n_quick: int = 14) -> Tuple[List[Dict[str, Any]], int]:
+def choose_cases(ck: core.Check, gen: Dict[str, Any], rnd: random.Random, n_quick: int = 8) -> Tuple[List[Dict[str, Any]], int]:
     """Spend the budget: every single fragment at the end of the text, a seeded sample of the rest; every pattern (quick: a sample)."""
     cands = []
     for p in gen["payloads"]:
@@ -74,7 +74,8 @@ def choose_cases(ck: core.Check, gen: Dict[str, Any], rnd: random.Random, n_quic
     p_rest = [c for c in pats if c not in p_single_tail]
     rnd.shuffle(p_rest)
     if ck.quick:
-        chosen = singles_tail + singles_other[:4] + longer[:n_quick] + p_single_tail + p_rest[:2]
+        rnd.shuffle(p_single_tail)
+        chosen = singles_tail + singles_other[:3] + longer[:n_quick] + p_single_tail[:8] + p_rest[:1]
     else:
         chosen = singles_tail + singles_other + longer[:380] + p_single_tail + p_rest[:80]
     for i, c in enumerate(chosen):
@@ -131,7 +132,7 @@ def main() -> int:
     return run(core.Check("C20", "exploration"))
 
 
-def run(ck: core.Check, model_check: bool = True, n_quick: int = 14) -> int:
+def run(ck: core.Check, model_check: bool = True, n_quick: int = 8) -> int:
     rnd = random.Random(ck.seed)
     suffix = "" if ck.quick else "_thorough"
     replay = os.environ.get("VERIF_REPLAY")
@@ -258,17 +259,21 @@ def run(ck: core.Check, model_check: bool = True, n_quick: int = 14) -> int:
                 ck.violation(key, "Inv_RealParserAccepts", {"target": p["target"], "path": p["path"], "payload_rst": c["rst"]}, {"parser": p["parser"], "message": p["msg"]}, detail="%s %s: %s says %s (as for the harmless twin)" % (p["target"], p["path"], p["parser"], p["msg"][:160]))
                 continue
             found.append({"clause": "Inv_RealParserAccepts", "case": p["case"], "target": p["target"], "path": p["path"], "envelope": p["parser"], "effect": p["msg"][:160], "text": ""})
-    # attribution: a violating payload is put down to the first of its fragments that violates the same clause for the
-    # same target on its own (the single-fragment cases are part of every run); otherwise to the combination
+    # attribution: a violating payload is put down to the first fragment (in the order of the fragment table) that violates
+    # the same clause for the same target on its own (the single-fragment cases are part of every run) and whose hostile
+    # text occurs in the payload; otherwise to the combination of its fragments
+    frag_text = {"text": [core.from_cps(f["plain"]) for f in gen["fragments"]], "pattern": [core.from_cps(f["re"]) for f in gen["pattern_fragments"]]}
     single = set()
     for x in found:
         c = by_id[x["case"]]
         if len(c["ids"]) == 1:
-            single.add((x["clause"], x["target"], c["kind"], c["ids"][0]))
+            single.add((x["clause"], x["target"], c["kind"], frag_text[c["kind"]][c["ids"][0] - 1]))
     for x in found:
         c = by_id[x["case"]]
         names = fragment_names(c)
-        hit = [n for i, n in zip(c["ids"], names) if (x["clause"], x["target"], c["kind"], i) in single]
+        body = c["pattern"] if c["kind"] == "pattern" else c["plain"]
+        table = PATTERN_NAMES if c["kind"] == "pattern" else FRAGMENT_NAMES
+        hit = [("pattern: " if c["kind"] == "pattern" else "") + table[i] for i, t in enumerate(frag_text[c["kind"]]) if (x["clause"], x["target"], c["kind"], t) in single and t in body]
         trigger = hit[0] if hit else "combination: " + " + ".join(names)
         key = {"clause": x["clause"], "target": x["target"], "trigger": trigger}
         ck.violation(
